@@ -16,6 +16,8 @@ replay = F.replay
 
 def run(ctx, model_ok, deep=False):
     F.run_suites(ctx, model_ok, deep, [
+        ("long-inputs", S.long_inputs_suite, S.falsify_long_inputs,
+         "alg header names of 1-20, 180-300, 400, 511-513, 767/768, 1000-1025, 4096, 20000 characters (bare and appended to none/HS256/RS256) on an unkeyed and a keyed checker; JWKs whose kty/crv/kid/alg member has those lengths; contract flag <=> rc, flag => message on every answer", False),
         ("jwk-shapes", S.jwk_shapes_suite, S.falsify_jwk_shapes,
          "per key type (oct, RSA, P-256, Ed25519; more in thorough) private and public: each member absent / null / int / real / bool / array / object / empty / non-base64 / 1 char / truncated / extended / first char flipped (+ random pairs in thorough); 30 non-JWK documents; keys of 11 types and 0-50 elements; 300 (quick) / 3000 (thorough) byte-mutated texts; entry points load/strn/create/fromfile/fromfp with good, bad, NUL-containing and set input", False),
     ])
